@@ -777,6 +777,12 @@ int32_t matrixSslLoadKeysMem(sslKeys_t *keys,
                     break;
                 }
             }
+            if (rc < 0)
+            {
+                /* The identity could not be loaded as any key type:
+                   do not let the CA load below hide that. */
+                return rc;
+            }
             if (CAbuf && CAlen > 0)
             {
                 rc = matrixSslLoadKeyMaterialMem(
@@ -1434,6 +1440,12 @@ psRes_t matrixSslLoadKeys(sslKeys_t *keys,
                 {
                     break;
                 }
+            }
+            if (rc < 0)
+            {
+                /* The identity could not be loaded as any key type:
+                   do not let the CA load below hide that. */
+                return rc;
             }
             if (CAfile)
             {
